@@ -1697,6 +1697,14 @@ class Interp:
                 exc = AVal(('exc', 'AppException'), None)
                 sr.emit('raise', e, exc=exc, implicit='app', call=ev.seq)
                 yield sr, None, (RAISE, exc)
+            if 'protocol' in self.opt.exc and how in ('app', 'atomic_repo', 'unknown') and (
+                    raises or (how == 'atomic_repo' and 'app' not in self.opt.exc and
+                               self._summary_may_raise(funcs))):
+                sr = st.fork()
+                pcls = self.repo.cls('rsocket.exceptions:RSocketProtocolError')
+                exc = AVal(('exc', 'RSocketProtocolError'), [pcls], exact=True)
+                sr.emit('raise', e, exc=exc, implicit='protocol', call=ev.seq)
+                yield sr, None, (RAISE, exc)
             if 'transport' in self.opt.exc and how in ('app', 'atomic_repo', 'unknown') and awaited:
                 sr = st.fork()
                 tcls = self.repo.cls('rsocket.exceptions:RSocketTransportError')
